@@ -175,8 +175,19 @@ func (c *Ctx) Explore(sc *vrt.Scenario) {
 		return
 	}
 	ex := &vrt.Explorer{Sc: sc, Deadline: c.Deadline}
+	t0 := time.Now()
 	ex.Run()
 	st := &ex.Stats
+	// per-family totals (second component of the scenario name), summed over the shards by the coordinator
+	if np := strings.SplitN(sc.Name, "/", 3); len(np) >= 2 {
+		if c.Res.Parts == nil {
+			c.Res.Parts = map[string]any{}
+		}
+		for k, v := range map[string]float64{"scenarios": 1, "executions": float64(st.Execs), "cpu_ms": float64(time.Since(t0).Milliseconds())} {
+			old, _ := c.Res.Parts["family."+np[1]+"."+k].(float64)
+			c.Res.Parts["family."+np[1]+"."+k] = old + v
+		}
+	}
 	if c.Filter != "" {
 		fmt.Fprintf(os.Stderr, "%s: execs=%d states=%d transitions=%d pruned=%d maxpoints=%d maxdepth=%d complete=%v level=%d distinct=%d viol=%d\n", sc.Name, st.Execs, st.States, st.Transitions, st.Pruned, st.MaxPoints, st.MaxDepth, st.Complete, st.LevelDone, len(st.Distinct), len(ex.Violations))
 	}
